@@ -764,6 +764,8 @@ impl<V: Val, S: StratExt<V>> Worker<V, S> {
         // initial load, then one compare-and-swap per attempt; nested operations in between.
         let nested = nested.into_inner();
         let mut ni = 0;
+        // the path flags of the whole call apply to each of its recorded parts (a superset)
+        let call_path = self.last_path.get();
         if let Some(first) = att.first() {
             self.push_op(c, Kind::Load, 0, 0, first.2, first.3, inv, first.0);
         }
@@ -773,6 +775,7 @@ impl<V: Val, S: StratExt<V>> Worker<V, S> {
                 ni += 1;
             }
             let (ret, ret_addr, r) = if k + 1 < att.len() { (att[k + 1].2, att[k + 1].3, att[k + 1].0) } else { (prev_id, prev_addr, resp) };
+            self.last_path.set(call_path);
             self.push_op(c, Kind::Cas, a.4, a.3, ret, ret_addr, a.1, r);
             if k + 1 < att.len() {
                 self.res.borrow_mut().discarded.push(a.4);
